@@ -192,28 +192,49 @@ func c15(r *engine.Report, p *engine.Program) {
 		vT, _ := engine.CondEdges(svs, func(c ssa.Value) (bool, bool) { f, _ := engine.FieldOfLoad(c); return f == vsField && f != nil, true })
 		ok := true
 		why := ""
-		for _, ret := range engine.Returns(svs) {
-			v := ret.Results[0]
-			switch {
-			case v == ssa.Value(pSign):
+		var acceptable func(v ssa.Value, ret *ssa.Return, seen map[ssa.Value]bool) (bool, string)
+		acceptable = func(v ssa.Value, ret *ssa.Return, seen map[ssa.Value]bool) (bool, string) {
+			if seen[v] {
+				return true, ""
+			}
+			seen[v] = true
+			switch x := v.(type) {
+			case *ssa.Parameter:
+				if x != pSign {
+					return false, "a parameter other than signWork is returned"
+				}
 				cut := engine.EdgeSet{}.Add(remoteEq...)
 				if engine.Reach(svs, nil, cut, nil, func(in ssa.Instruction) bool { return in == ssa.Instruction(ret) }) != nil {
-					ok, why = false, "the caller-supplied sign flag is returned for a work type other than remote"
+					// a phi may merge the parameter on the remote path only: check the phi edge instead
+					return false, "the caller-supplied sign flag is returned for a work type other than remote"
 				}
-			default:
-				if c, isC := v.(*ssa.Const); isC {
-					if c.Value != nil && c.Value.String() == "true" {
-						cut := engine.EdgeSet{}.Add(vT...)
-						if len(vT) == 0 || engine.Reach(svs, nil, cut, nil, func(in ssa.Instruction) bool { return in == ssa.Instruction(ret) }) != nil {
-							ok, why = false, "true is returned without the registered type's verifySignature being true"
-						}
+				return true, ""
+			case *ssa.Const:
+				if x.Value != nil && x.Value.String() == "true" {
+					cut := engine.EdgeSet{}.Add(vT...)
+					if len(vT) == 0 || engine.Reach(svs, nil, cut, nil, func(in ssa.Instruction) bool { return in == ssa.Instruction(ret) }) != nil {
+						return false, "true is returned without the registered type's verifySignature being true"
 					}
-				} else if ph, isPhi := v.(*ssa.Phi); isPhi {
-					_ = ph
-					ok, why = false, "return value is a merged expression the rule cannot classify"
-				} else {
-					ok, why = false, "unexpected return value "+v.String()
 				}
+				return true, ""
+			case *ssa.Phi:
+				for _, e := range x.Edges {
+					if okE, w := acceptable(e, ret, seen); !okE {
+						// a parameter merged by a phi: acceptable only if it enters from the remote edge; keep strict
+						return false, w
+					}
+				}
+				return true, ""
+			case *ssa.UnOp:
+				if f, _ := engine.FieldOfLoad(x); f == vsField && f != nil {
+					return true, ""
+				}
+			}
+			return false, "unexpected return value " + v.String()
+		}
+		for _, ret := range engine.Returns(svs) {
+			if okR, w := acceptable(ret.Results[0], ret, map[ssa.Value]bool{}); !okR {
+				ok, why = false, w
 			}
 		}
 		// negative: for a registered verifying type, false must not be returned: every 'return false' is cut by verifySignature == false or unknown type
@@ -392,6 +413,14 @@ func unixTruthRule(r *engine.Report, p *engine.Program, cf *ssa.Function, psCall
 			}
 		} else if k, isC := v.(*ssa.Const); isC && k.Value != nil && k.Value.String() == "false" {
 			ok = true
+		} else if bo, isB := v.(*ssa.BinOp); isB && bo.Op == token.EQL {
+			// connIsUnix := addr.Network() == "unix"
+			if s, isS := engine.ConstString(bo.Y); isS && s == "unix" && isNetworkCall(bo.X) {
+				ok = true
+			}
+			if s, isS := engine.ConstString(bo.X); isS && s == "unix" && isNetworkCall(bo.Y) {
+				ok = true
+			}
 		}
 		r.Check("R3-unix-only", "ControlFunc: connIsUnix passed to processSignature", c.Pos(), ok,
 			"connIsUnix is true only when cfo.RemoteAddr().Network() == \"unix\"", why)
